@@ -62,6 +62,10 @@ def rhs(bkind, M, Q, seed, exact):
         rnd = lambda *s: g.standard_normal(s) + (1j * g.standard_normal(s) if c else 0)  # noqa: E731
     if bkind == "one":
         return rnd(n)
+    if bkind == "lowp":  # right-hand sides in a NARROWER dtype than the operator (float32 / complex64): the solve runs in the promoted dtype
+        return rnd(n, 2).astype(np.complex64 if c else np.float32)
+    if bkind == "intrhs":
+        return P.ints(g, (n, ), -3, 3, nonzero=True).astype(np.int64)
     if bkind == "three":
         return rnd(n, 3) * np.array([2.0**-20, 1.0, 2.0**20])[None, :]
     if bkind == "zerocol":
@@ -137,7 +141,7 @@ def run_case(case, seed):
             x0 = (P.ints(g, b.shape, -2, 2, cplx=cplx) if exact else g.standard_normal(b.shape) + (1j * g.standard_normal(b.shape) if cplx else 0)).astype(b.dtype)
         else:
             x0 = np.linalg.solve(M, b)
-        B = b if b.ndim == 2 else b[:, None]
+        B = (b if b.ndim == 2 else b[:, None]).astype(np.result_type(b.dtype, M.dtype))
         X0 = np.zeros_like(B) if x0 is None else (x0 if x0.ndim == 2 else x0[:, None])
         Xs = np.linalg.solve(M, B)
         bn = np.linalg.norm(B, axis=0)
@@ -283,7 +287,8 @@ def run_case(case, seed):
         for alpha in (2.0**-20, -3.0, 2.0**20):
             ntr += 1
             try:
-                xa, _, _ = run(mref, TINY, bb=alpha * b, xx0=(None if x0 is None else alpha * x0))
+                # scaled in the promoted dtype (alpha * float32 would round: the comparison below is to 1e-10)
+                xa, _, _ = run(mref, TINY, bb=alpha * b.astype(B.dtype), xx0=(None if x0 is None else alpha * x0.astype(B.dtype)))
                 ref_x = prefix[mref] if b.ndim == 2 else prefix[mref][:, 0]
                 scale = max(np.max(np.abs(ref_x)), 1e-300) * abs(alpha)
                 if np.max(np.abs(xa - alpha * ref_x)) > 1e-10 * scale:
@@ -308,7 +313,7 @@ _DESC = {}
 
 def cases(tier, seed):
     out = []
-    bks = ["one", "three", "zerocol", "allzero", "zero1d"]
+    bks = ["one", "three", "zerocol", "allzero", "zero1d", "lowp", "intrhs"]
     for n in (1, 2, 3, 4, 5, 6):
         ms = list(range(0, 2 * n + 1))
         for cplx in (False, True):
@@ -324,10 +329,10 @@ def cases(tier, seed):
         ms = list(range(0, 2 * n + 1)) if n <= 8 else sorted({0, 1, 2, 5, 10, 25, 2 * n})
         for cplx in (False, True):
             for spec in specs:
-                for bk in ["one", "three", "zerocol", "eig1", "eig2", "mixcols"]:
+                for bk in ["one", "three", "zerocol", "eig1", "eig2", "mixcols", "lowp", "intrhs"]:
                     for x0k in ("none", "rand", "exact"):
                         for pk in (("none", "jacobi", "nystrom") if not cplx else ("none", "jacobi")):
-                            if tier == "quick" and (n > 8) and not (bk in ("one", "three", "mixcols") and x0k != "exact" and pk != "nystrom"):
+                            if tier == "quick" and (n > 8) and not (bk in ("one", "three", "mixcols", "lowp") and x0k != "exact" and pk != "nystrom"):
                                 continue
                             if tier == "quick" and n == 8 and spec in ("cond10", "clusters") and pk == "nystrom":
                                 continue
